@@ -136,7 +136,8 @@ pub fn get_opcode_bytes(
     for (opcode, operand_length) in possible_opcodes {
         match operand_length {
             0 => return Ok(v![opcode]),
-            1 if operand < 256 => return Ok(v![opcode, operand as u8]),
+            // (a negative value stands for its two's complement, as long as it fits)
+            1 if (-128..256).contains(&operand) => return Ok(v![opcode, operand as u8]),
             2 => {
                 let val = (operand as u16).to_le_bytes();
                 return Ok(v![opcode, val[0], val[1]]);
